@@ -9,7 +9,11 @@ def main() -> int:
     desc = json.load(sys.stdin)
     mod = importlib.import_module(f"props.{pid}")
     try:
-        if desc.get("kind") == "e2e":
+        if desc.get("kind") == "cli":
+            from harness import cli
+            what = cli.replay(pid, desc["scenario"], desc.get("run"))
+            res = {"reproduced": bool(what), "observed": what[:6], "required": "the property's statement, checked by harness/cli.py on the reports / exit status of this run"}
+        elif desc.get("kind") == "e2e":
             from harness import e2e
             what = [w for p, w in e2e.run_scenario(desc["scenario"], [pid]) if p == pid]
             res = {"reproduced": bool(what), "observed": what[:6], "required": "the property's statement, checked by harness/e2e.py oracles on this history"}
